@@ -235,7 +235,7 @@ def get_pedal_type_from_value(value, evaluate_name=None) -> Type:
     if isinstance(value, type(None)):
         return NoneType()
     if isinstance(value, tuple):
-        return TupleType((get_pedal_type_from_value(t, evaluate_name) for t in value))
+        return TupleType(tuple(get_pedal_type_from_value(t, evaluate_name) for t in value))
     if isinstance(value, (list, set, frozenset)):
         container_type = ELEMENT_TYPES.get(type(value), ListType)
         if value:
@@ -244,7 +244,7 @@ def get_pedal_type_from_value(value, evaluate_name=None) -> Type:
             if element_type is not None:
                 return container_type(False, element_type)
             else:
-                return container_type(False, get_pedal_type_from_value(value[0], evaluate_name))
+                return container_type(False, get_pedal_type_from_value(next(iter(value)), evaluate_name))
         else:
             return container_type(True)
     if isinstance(value, dict):
